@@ -438,10 +438,10 @@ tfpdeftests:
 	}
 |	tfpdeftests ',' tfpdeftest
 	{
+		// keyword only parameters: nil for one without a default keeps
+		// the defaults aligned with the names
 		$$ = append($$, $3)
-		if $<expr>3 != nil {
-			$<exprs>$ = append($<exprs>$, $<expr>3)
-		}
+		$<exprs>$ = append($<exprs>$, $<expr>3)
 	}
 
 tfpdeftests1:
@@ -531,10 +531,10 @@ vfpdeftests:
 	}
 |	vfpdeftests ',' vfpdeftest
 	{
+		// keyword only parameters: nil for one without a default keeps
+		// the defaults aligned with the names
 		$$ = append($$, $3)
-		if $<expr>3 != nil {
-			$<exprs>$ = append($<exprs>$, $<expr>3)
-		}
+		$<exprs>$ = append($<exprs>$, $<expr>3)
 	}
 
 vfpdeftests1:
